@@ -1,15 +1,17 @@
 (* IoAwDefs.v -- the autowrite option and the remembered time stamp over whole editing histories (C03).
    Extends IoTableDefs.v.  ex.c has five callers of bufs_modified() -- ec_edit (:e :n :prev ...), ec_buffer (:b),
    ec_exec (:!cmd), ec_make (:make) and the loop of ec_quit (:q) -- which ask "may this buffer be left?"; with
-   `:se aw` (xaw) a modified buffer is saved instead of refusing:
-       if (xaw && b->path[0]) return lbuf_save(b->lb, 0, -1, b->path, 0, b->mtime) != NULL;
-   i.e. a write WITHOUT `!` guarded by the slot's own remembered stamp; nothing is recorded afterwards (neither
-   lbuf_saved nor b->mtime), whatever lbuf_save answered.  The other callers of lbuf_save are ec_write (slot 0,
-   bookkeeping only after success) and the `a` loop of ec_quit (every slot, no bookkeeping).
+   `:se aw` (xaw) a modified buffer is saved instead of refusing (ex.c after 37c81b2):
+       if (xaw && b->path[0]) {
+           if (lbuf_save(b->lb, 0, -1, b->path, 0, b->mtime) != NULL) return 1;
+           lbuf_saved(b->lb, 0); b->mtime = mtime(b->path); return 0; }
+   i.e. a write WITHOUT `!` guarded by the slot's own remembered stamp; the saved mark and the remembered stamp are
+   updated after the save returned no error and only then.  The other callers of lbuf_save are ec_write (slot 0,
+   bookkeeping only after success) and the `a` loop of ec_quit (every slot, the same bookkeeping after success).
    Every slot is paired with a GHOST stamp that is not in the C program: the stamp its file had when the editor
    last read it into that slot or last wrote it successfully from that slot as its own path (-1: no file then).
    The property "a write without ! never replaces a file newer than when the editor read or wrote it" is about
-   the ghost; the code looks at bufs[i].mtime.  IoAwProps.v proves  bufs[i].mtime <= ghost  over all histories.
+   the ghost; the code looks at bufs[i].mtime.  IoAwProps.v proves  bufs[i].mtime = ghost  over all histories.
    The refused :q / :xa does bufs_switch(i) to the offending slot: modelled here (not in IoTableDefs.ec_quit_t).
    All buffers are named; the writeany option (xwa) is off.  No proofs here. *)
 From Coq Require Import List NArith ZArith Bool Arith.
@@ -33,10 +35,13 @@ Definition bufs_modified : bmfun := fun now aw lk bf fs sch =>
   if negb (b_dirty bf) then (false, SOk, bf, fs, sch)
   else if aw then
     let '(st, fs', r) := lbuf_save_l now (b_lines bf) 0 (length (b_lines bf)) lk (b_path bf) false (b_mtime bf) fs sch in
-    (match st with SOk => false | _ => true end, st, bf, fs', r)
+    match st with
+    | SOk => (false, st, {| b_lines := b_lines bf; b_path := b_path bf; b_mtime := mtime_of lk fs' (b_path bf); b_dirty := false |}, fs', r)
+    | _ => (true, st, bf, fs', r)                      (* return 1 before lbuf_saved / b->mtime = ... *)
+    end
   else (true, SRefused, bf, fs, sch).                  (* "buffer modified" *)
-(* NOT what the code does: the bookkeeping of ec_write added to the autowrite, with the stamp re-read BEFORE the
-   result is looked at.  Only used to show that the theorems tell the two apart. *)
+(* NOT what the code does (seeded/C03i): the bookkeeping with the stamp re-read BEFORE the result is looked at.
+   Only used to show that the theorems tell the two apart. *)
 Definition bufs_modified_eager : bmfun := fun now aw lk bf fs sch =>
   if negb (b_dirty bf) then (false, SOk, bf, fs, sch)
   else if aw then
@@ -45,15 +50,13 @@ Definition bufs_modified_eager : bmfun := fun now aw lk bf fs sch =>
      {| b_lines := b_lines bf; b_path := b_path bf; b_mtime := mtime_of lk fs' (b_path bf);
         b_dirty := match st with SOk => false | _ => b_dirty bf end |}, fs', r)
   else (true, SRefused, bf, fs, sch).
-(* the bookkeeping done only after success (what a repair of the autowrite would do) *)
-Definition bufs_modified_kept : bmfun := fun now aw lk bf fs sch =>
+(* NOT what the code does any more: ex.c before 37c81b2 recorded nothing after a successful autowrite (the defect
+   "stale stamp": a file dated in the editor's future kept its later remembered stamp).  Only used in the Example. *)
+Definition bufs_modified_stale : bmfun := fun now aw lk bf fs sch =>
   if negb (b_dirty bf) then (false, SOk, bf, fs, sch)
   else if aw then
     let '(st, fs', r) := lbuf_save_l now (b_lines bf) 0 (length (b_lines bf)) lk (b_path bf) false (b_mtime bf) fs sch in
-    match st with
-    | SOk => (false, st, {| b_lines := b_lines bf; b_path := b_path bf; b_mtime := mtime_of lk fs' (b_path bf); b_dirty := false |}, fs', r)
-    | _ => (true, st, bf, fs', r)
-    end
+    (match st with SOk => false | _ => true end, st, bf, fs', r)
   else (true, SRefused, bf, fs, sch).
 
 (* the ghost of a slot after bufs_modified: the editor wrote the file iff the autowrite was tried and said ok *)
@@ -100,7 +103,8 @@ Fixpoint quit_scan (bm : bmfun) (now : Z) (aw all bang : bool) (lk : links) (tb 
       let '(st, fs', r) := lbuf_save_l now (b_lines bf) 0 (length (b_lines bf)) lk (b_path bf) bang (b_mtime bf) fs sch in
       match st with
       | SOk => let '(k, st2, rest', fs2, r2) := quit_scan bm now aw all bang lk rest fs' r in
-               (option_map S k, st2, (bf, mtime_of lk fs' (b_path bf)) :: rest', fs2, r2)
+               let m := mtime_of lk fs' (b_path bf) in           (* lbuf_saved(b->lb, 0); b->mtime = mtime(b->path); *)
+               (option_map S k, st2, ({| b_lines := b_lines bf; b_path := b_path bf; b_mtime := m; b_dirty := false |}, m) :: rest', fs2, r2)
       | _ => (Some 0, st, tb, fs', r)
       end
     else if bang then
@@ -214,17 +218,10 @@ Definition start (lk : links) (fs : fsys) (p : nat) : est :=
   let b := ec_edit_l lk fs p in
   {| e_tb := [(b, b_mtime b)]; e_lk := lk; e_fs := fs; e_aw := false; e_quit := false; e_st := SOk |}.
 
-(* the remembered stamp of every slot is at most the stamp its file had when the editor last read or wrote it *)
-Definition aw_inv (tb : list gbuf) : Prop := Forall (fun x : gbuf => (b_mtime (fst x) <= snd x)%Z) tb.
-(* the editor's clock at a command is not behind a stamp it remembers (files are not dated in the editor's future) *)
-Fixpoint clock_ok (bm : bmfun) (s : est) (h : list acmd) : Prop :=
-  match h with
-  | [] => True
-  | c :: h' =>
-    match cmd_now c with
-    | Some now => Forall (fun x : gbuf => (b_mtime (fst x) <= now)%Z) (e_tb s)
-    | None => True
-    end /\ clock_ok bm (step bm s c) h'
-  end.
+(* the remembered stamp of every slot IS the stamp its file had when the editor last read or wrote it *)
+Definition aw_inv (tb : list gbuf) : Prop := Forall (fun x : gbuf => b_mtime (fst x) = snd x) tb.
+(* what a save loop may do to a slot: nothing, or (after a save that said ok) saved mark set, stamp = ghost = the file's new stamp *)
+Definition kept_or_saved (x x' : gbuf) : Prop :=
+  x' = x \/ (b_lines (fst x') = b_lines (fst x) /\ b_path (fst x') = b_path (fst x) /\ b_dirty (fst x') = false /\ b_mtime (fst x') = snd x').
 (* the file of slot x is newer than what the editor read or wrote last (or exists although there was none) *)
 Definition newer (lk : links) (fs : fsys) (x : gbuf) : Prop := (mtime_of lk fs (b_path (fst x)) > snd x)%Z.
